@@ -10,7 +10,9 @@ META = {
     "not_decided": ["truth of the IUPAC values beyond the reference snapshot"],
     "assumptions": ["the electron mass is taken as the code's 5.489e-4 u (CODATA: 5.4858e-4 u, relative difference 6e-4; the repository's own test pins the code's value): the contracts decide that the SAME constant is used everywhere, not its accuracy",
                     "spec/iupac.py is a snapshot of the pinned tree's table (detects drift, not disagreement with IUPAC)",
-                    "a substance whose data carries an explicit 'mass' reports that mass (precondition of the composition-sum clause: 'mass' not in data)"],
+                    "a substance whose data carries an explicit 'mass' reports that mass (precondition of the composition-sum clause: 'mass' not in data)",
+                    "a 'mixture' has positive coefficients and positive masses (mass_fractions.*: v > 0, m > 0): zero, negative or mixed-sign coefficients (a net reaction "
+                    "stoichiometry, whose total mass is zero) are outside the clause 'positive ... sum to one' and nothing is decided about them"],
 }
 
 ELECTRON = 5.489e-4
@@ -68,7 +70,81 @@ def _(v):
     _contract_mfc(v, periodic)
     v.prove("post", v.eq(v.getattr(s, "mass"), m))
     s2 = make_obj(Substance, name="X", data={}, composition=None)
-    v.prove("none", v.getattr(s2, "mass") is None)
+    # neither an explicit mass nor a composition: there is no mass to report - None or a refusal, never a number
+    try:
+        none = v.getattr(s2, "mass") is None
+    except Exception:
+        none = True
+    v.prove("none", none)
+
+
+@harness("C14", "Substance.molar_mass", functions=["chempy.chemistry:Substance.molar_mass", "chempy.chemistry:Substance.mass"])
+def _(v):
+    """'molar mass': the mass (composition sum, electron term included) times the gram per mole OF THE UNITS GIVEN - for any unit namespace, so an
+    implementation that ignores its argument in favour of the default units does not pass (default units: masses_of_written_formulas)"""
+    from types import SimpleNamespace
+    from chempy.chemistry import Substance
+    from chempy.util import periodic
+    comp = v.dict("composition", K="int", V="real", key_lo=0, key_hi=118, val_lo=-50, val_hi=50, maxlen=5)
+    g, mol = v.real("g", lo=0.1, hi=10), v.real("mol", lo=0.1, hi=10)
+    s = make_obj(Substance, name="X", data={}, composition=comp)
+    _contract_mfc(v, periodic)
+    r = v.call(s.molar_mass, SimpleNamespace(g=g, mol=mol))
+    v.prove("mass_times_g_per_mol_of_the_given_units", v.eq(r * mol, spec_mass(periodic.relative_atomic_masses, comp) * g))
+    m = v.real("m", lo=0.001, hi=500)
+    s2 = make_obj(Substance, name="X", data={"mass": m}, composition=None)
+    v.prove("explicit_mass", v.eq(v.call(s2.molar_mass, SimpleNamespace(g=g, mol=mol)) * mol, m * g))
+
+
+def _is_callers_plus_charge(v, got, comp, q):
+    """got == comp with the single further entry {0: q} (as a whole view: same keys, same values), for symbolic and python mappings"""
+    if v.symbolic:
+        return SP.forall_keys("int", lambda k: SP.conj([SP.iff(SP.dhas(got, k), SP.disj([SP.dhas(comp, k), k == 0])),
+                                                        SP.dget(got, k, 0) == SP.ite(k == 0, q, SP.dget(comp, k, 0))]))
+    want = dict(comp)
+    want[0] = q
+    return dict(got) == want
+
+
+@harness("C14", "Substance.charge_keyword", functions=["chempy.chemistry:Substance.__init__", "chempy.chemistry:Substance.charge"])
+def _(v):
+    """'an ion differs from its neutral parent by exactly the electron masses' when the charge is given by the keyword (EITHER sign, any
+    composition without a charge entry): the substance carries that charge, its composition is the caller's plus the entry {0: charge} (the mass
+    of which is the parent's minus charge electron masses by Substance.mass.from_composition; per shape in Substance.charge_keyword.mass), the
+    caller's mapping is not given a charge entry, so a parent built from it stays neutral; a charge keyword that contradicts a charge entry of
+    the composition is refused (or, were both accepted, they agree) - never silently resolved in favour of one"""
+    from chempy.chemistry import Substance
+    q = v.int("charge", lo=-6, hi=6)
+    comp = v.dict("composition", K="int", V="real", key_lo=1, key_hi=118, val_lo=0, val_hi=50, maxlen=4)
+    s = v.call(Substance, "X", charge=q, composition=comp)
+    v.prove("charge", v.getattr(s, "charge") == q)
+    v.prove("composition_is_the_callers_plus_the_charge", _is_callers_plus_charge(v, v.getattr(s, "composition"), comp, q))
+    v.prove("callers_composition_has_no_charge_entry", SP.neg(SP.dhas(comp, 0)))
+    parent = v.call(Substance, "X", composition=comp)
+    v.prove("parent_from_the_same_mapping_is_neutral", v.getattr(parent, "charge") == 0)
+    both = v.dict("composition_with_charge", K="int", V="real", key_lo=0, key_hi=118, val_lo=-6, val_hi=50, maxlen=4)
+    if not v.symbolic:
+        both.setdefault(0, 2)
+    v.assume(SP.dhas(both, 0))
+    out = v.run(Substance, "X", charge=q, composition=both)
+    v.prove("charge_given_twice_is_refused_or_consistent", True if out.raised() else SP.conj([v.getattr(out.value, "charge") == q, SP.dget(both, 0, 0) == q]))
+
+
+@harness("C14", "Substance.charge_keyword.mass", functions=["chempy.chemistry:Substance.__init__", "chempy.chemistry:Substance.mass"], kind="shape-bounded", samples=30)
+def _(v):
+    """the same clause as a mass, per shape (Fe_a C_b N_c with the charge -6..6 given by keyword): mass = composition sum - charge * electron mass,
+    i.e. an anion is HEAVIER than its parent; the parent built from the same mapping afterwards weighs the composition sum"""
+    from chempy.chemistry import Substance
+    from chempy.util import periodic
+    q, nfe, nc, nn = v.int("charge", lo=-6, hi=6), v.int("n_Fe", lo=1, hi=4), v.int("n_C", lo=0, hi=9), v.int("n_N", lo=0, hi=9)
+    comp = {26: nfe, 6: nc, 7: nn}
+    ram = periodic.relative_atomic_masses
+    neutral = nfe * ram[25] + nc * ram[5] + nn * ram[6]
+    ion = v.call(Substance, "X", charge=q, composition=comp)
+    v.prove("ion", v.eq(v.getattr(ion, "mass"), neutral - q * ELECTRON))
+    parent = v.call(Substance, "X", composition=comp)
+    v.prove("parent", SP.conj([v.eq(v.getattr(parent, "mass"), neutral), v.getattr(parent, "charge") == 0]))
+    v.prove("difference", v.eq(v.getattr(parent, "mass") - v.getattr(ion, "mass"), q * ELECTRON))
 
 
 def _mf_harness(n):
@@ -94,7 +170,7 @@ for _n in (1, 2, 3, 4):
     _mf_harness(_n)
 
 
-@harness("C14", "tables", functions=["chempy.util.periodic:_get_relative_atomic_masses", "chempy.util.periodic:<module tables>"], kind="data")
+@harness("C14", "tables", functions=["chempy.util.periodic:_get_relative_atomic_masses", "chempy.util.periodic:<module tables>", "chempy.util.periodic:mass_from_composition"], kind="data")
 def _(v):
     from chempy.util import periodic as p
     T = iupac.TABLE
@@ -104,11 +180,24 @@ def _(v):
     v.prove("masses", all(p.relative_atomic_masses[z - 1] == m for z, s, n, m in T),
             "atomic weights differ: %s" % [(z, s, p.relative_atomic_masses[z - 1], m) for z, s, n, m in T if p.relative_atomic_masses[z - 1] != m][:3])
     v.prove("generator", tuple(p._get_relative_atomic_masses()) == tuple(m for z, s, n, m in T))
-    v.prove("groups", p.groups[18] == iupac.NOBLE_GASES and p.groups[1] == iupac.ALKALI and p.groups[2] == iupac.ALKALINE_EARTH
-            and p.groups[17] == iupac.HALOGENS and p.groups[16] == iupac.CHALCOGENS and p.groups[15] == iupac.PNICTOGENS
-            and p.groups[14] == iupac.CRYSTALLOGENS and p.groups[13] == iupac.ICOSAGENS and sorted(p.groups) == [1, 2, 13, 14, 15, 16, 17, 18])
+    # membership of the groups (any container, any order: the property has no clause about the container type)
+    ref_groups = {18: iupac.NOBLE_GASES, 1: iupac.ALKALI, 2: iupac.ALKALINE_EARTH, 17: iupac.HALOGENS, 16: iupac.CHALCOGENS, 15: iupac.PNICTOGENS, 14: iupac.CRYSTALLOGENS, 13: iupac.ICOSAGENS}
+    try:
+        groups_ok = sorted(p.groups) == sorted(ref_groups) and all(sorted(p.groups[g]) == sorted(ref) and len(p.groups[g]) == len(ref) for g, ref in ref_groups.items())
+        detail = ""
+    except Exception as ex:
+        groups_ok, detail = False, repr(ex)[:200]
+    v.prove("groups", groups_ok, detail)
     v.prove("periods", tuple(p.period_lengths) == (2, 8, 8, 18, 18, 32, 32) and tuple(p.accum_period_lengths) == (2, 10, 18, 36, 54, 86, 118))
-    v.prove("electron_mass", abs(ELECTRON / iupac.ELECTRON_MASS_U - 1) < 1e-3)
+    # the electron mass THE CODE uses (measured: the mass of one electron, composition {0: -1}) is the constant of this contract (to rounding of
+    # 0.0 + x) and within 1e-3 relative of CODATA (META: its accuracy beyond that is assumed, not decided)
+    try:
+        used = p.mass_from_composition({0: -1})
+        electron_ok = abs(used - ELECTRON) <= 1e-18 and abs(used / iupac.ELECTRON_MASS_U - 1) < 1e-3 and abs(ELECTRON / iupac.ELECTRON_MASS_U - 1) < 1e-3
+        detail = "electron mass used by mass_from_composition: %r" % (used,)
+    except Exception as ex:
+        electron_ok, detail = False, repr(ex)[:200]
+    v.prove("electron_mass", electron_ok, detail)
 
 
 def _case_variants(s):
@@ -138,12 +227,13 @@ def _(v):
     v.prove("symbols_case_insensitively_unique", len(set(syms_ci)) == 118)
     v.prove("count", n >= 118 * 4)
     for junk in ("Xx", "", "Hydrogenium", "J"):
+        # no element has that symbol or name: refused (the kind of exception is not part of the property), never an atomic number
         try:
-            atomic_number(junk)
+            got = atomic_number(junk)
             ok = False
-        except ValueError:
-            ok = True
-        v.prove("rejects_%s" % (junk or "empty"), ok)
+        except Exception as ex:
+            got, ok = repr(ex)[:80], True
+        v.prove("rejects_%s" % (junk or "empty"), ok, detail="atomic_number(%r) -> %s" % (junk, got))
 
 
 @harness("C14", "reading_the_mass_changes_nothing", functions=["chempy.util.periodic:mass_from_composition", "chempy.chemistry:Substance.mass", "chempy.chemistry:Substance.charge"], kind="shape-bounded", samples=30)
@@ -188,10 +278,10 @@ def _(v):
 @harness("C14", "no_state_between_masses", functions=["chempy.chemistry:Substance.mass", "chempy.chemistry:Substance.from_formula", "chempy.util.periodic:mass_from_composition"], kind="data")
 def _(v):
     """the mass of a substance is a function of ITS composition as it is now: no value left behind by another substance, by an earlier
-    construction from the same formula, or by an earlier reading"""
+    construction from the same formula, or by an earlier reading; a mass assigned to one substance is that substance's only"""
     from chempy.chemistry import Substance
     from chempy.util.periodic import relative_atomic_masses as ram
-    me = 5.489e-4
+    me = ELECTRON
     close = lambda a, b: abs(a - b) < 1e-9
     for first in ("ion", "neutral"):
         pair = [Substance.from_formula("Ce", charge=4), Substance.from_formula("Ce")] if first == "ion" else [Substance.from_formula("Ce"), Substance.from_formula("Ce", charge=4)][::-1]
@@ -201,7 +291,8 @@ def _(v):
     a = Substance.from_formula("NaCl", data=shared)
     b = Substance.from_formula("H2O", data=shared)
     ma, mb = a.mass, b.mass
-    v.prove("substances_sharing_a_data_dict_keep_their_own_masses", a.data is shared and b.data is shared and close(ma, ram[10] + ram[16]) and close(mb, 2 * ram[0] + ram[7]) and close(a.mass, ma))
+    # (whether the substances keep the caller's dict itself or a copy of it is not part of the property: with a copy there is simply nothing shared)
+    v.prove("substances_sharing_a_data_dict_keep_their_own_masses", close(ma, ram[10] + ram[16]) and close(mb, 2 * ram[0] + ram[7]) and close(a.mass, ma) and close(b.mass, mb))
     v.prove("reading_the_mass_does_not_write_into_data", shared == {"tag": 1})
     # constructing an ion from a composition mapping the caller keeps using: the caller's mapping (and a parent built from it) is not given the charge
     comp = {1: 1}
@@ -218,35 +309,117 @@ def _(v):
     v.prove("mass_follows_the_composition", close(m1, 2 * ram[0] + ram[7]) and close(c.mass, 2 * ram[0] + 2 * ram[7]))
     d = Substance("Y", composition={1: 1}, data={"mass": 42.0})
     v.prove("explicit_mass_wins", d.mass == 42.0)
+    # a NEGATIVE charge by keyword: the anion carries two electrons more than its parent and is heavier by their mass (hand: S 32.06 -> 32.0610978)
+    try:
+        sulfide, sulfur = Substance("S-2", charge=-2, composition={16: 1}), Substance("S", composition={16: 1})
+        anion_ok = sulfide.charge == -2 and sulfur.charge == 0 and close(sulfide.mass - sulfur.mass, 2 * me) and sulfide.mass > sulfur.mass and close(sulfur.mass, ram[15])
+        detail = "S-2: %r, S: %r" % (sulfide.mass, sulfur.mass)
+    except Exception as ex:
+        anion_ok, detail = False, repr(ex)[:200]
+    v.prove("anion_by_keyword_is_heavier_by_the_electron_masses", anion_ok, detail)
+    # assigning the mass: that substance reports the assigned mass from then on (also as molar mass), its composition is untouched, and neither a
+    # substance built before nor one built afterwards from the same formula is given that mass
+    try:
+        from types import SimpleNamespace
+        before = Substance.from_formula("H2O")
+        w = Substance.from_formula("H2O")
+        comp0 = dict(w.composition)
+        hand = 2 * ram[0] + ram[7]
+        m0 = w.mass
+        w.mass = 20.5
+        after = Substance.from_formula("H2O")
+        setter_ok = (close(m0, hand) and w.mass == 20.5 and w.composition == comp0 == {1: 2, 8: 1} and close(w.molar_mass(SimpleNamespace(g=4.0, mol=2.0)), 41.0)
+                     and close(before.mass, hand) and close(after.mass, hand))
+        w.mass = 18.25
+        setter_ok = setter_ok and w.mass == 18.25 and close(before.mass, hand)
+        detail = "assigned 20.5 then 18.25, reads %r; substances built before/after weigh %r/%r" % (w.mass, before.mass, after.mass)
+    except Exception as ex:
+        setter_ok, detail = False, repr(ex)[:200]
+    v.prove("assigned_mass_is_reported_by_that_substance_only", setter_ok, detail)
 
 
 @harness("C14", "masses_of_written_formulas", functions=["chempy.chemistry:Substance.from_formula", "chempy.chemistry:Substance.mass", "chempy.chemistry:Substance.molar_mass",
                                                         "chempy.chemistry:mass_fractions", "chempy.util.periodic:mass_from_composition"], kind="data")
 def _(v):
     """'additive over hydrate parts and groups, scales with multipliers, an ion differs from its neutral parent by exactly the electron masses' on
-    formulas (through the parser), and the default path of mass_fractions (substances made from the keys); expectations are sums written by hand
-    over the table of atomic weights"""
+    formulas (through the parser: every bracket kind, both hydrate separators, decimal subscripts, all 118 symbols), the default path of
+    mass_fractions (substances made from the keys by the factory given) and the molar mass in given and default units; expectations are sums
+    written by hand over the table of atomic weights"""
     from chempy.chemistry import Substance, Species, mass_fractions
     from chempy.util.periodic import relative_atomic_masses as ram, mass_from_composition
     M = lambda f: Substance.from_formula(f).mass
-    w = lambda sym: ram[{"H": 1, "C": 6, "N": 7, "O": 8, "Na": 11, "S": 16, "Cl": 17, "Fe": 26, "Cu": 29}[sym] - 1]
-    me = 5.489e-4
+    w = lambda sym: ram[{"H": 1, "C": 6, "N": 7, "O": 8, "Na": 11, "Mg": 12, "Al": 13, "S": 16, "Cl": 17, "Ca": 20, "Fe": 26, "Cu": 29}[sym] - 1]
+    me = ELECTRON
     close = lambda a, b: abs(a - b) <= 1e-9 * max(1.0, abs(b))
     v.prove("sum_over_the_composition", close(M("H2O"), 2 * w("H") + w("O")) and close(M("CuSO4"), w("Cu") + w("S") + 4 * w("O")) and close(M("Fe(CN)6"), w("Fe") + 6 * w("C") + 6 * w("N")))
     v.prove("hydrate_parts_add", close(M("CuSO4..5H2O"), M("CuSO4") + 5 * M("H2O")) and close(M("Na2CO3..7H2O(s)"), M("Na2CO3") + 7 * M("H2O")) and close(M("CuSO4..5H2O..2NH3"), M("CuSO4") + 5 * M("H2O") + 2 * M("NH3")))
     v.prove("groups_scale_with_their_multiplier", all(close(M("(H2O)%d" % k), k * M("H2O")) and close(M("Fe((CN)2)%d" % k), M("Fe") + 2 * k * (w("C") + w("N"))) for k in (1, 2, 3, 7, 12, 250)))
+    # the rest of the C01 grammar, end to end (C01 proves the compositions; here the masses, as sums written by hand): square and curly groups, nested;
+    # the middle dot as hydrate separator; a two-digit hydrate count; a group inside a hydrate part; decimal subscripts
+    try:
+        water = 2 * w("H") + w("O")
+        grammar_ok = (close(M("{[Fe(CN)6]2}3"), 6 * (w("Fe") + 6 * w("C") + 6 * w("N"))) and close(M("[Fe(CN)6]-4"), w("Fe") + 6 * w("C") + 6 * w("N") + 4 * me)
+                      and close(M("CuSO4\u00b75H2O"), w("Cu") + w("S") + 4 * w("O") + 5 * water)
+                      and close(M("Na2CO3..10H2O"), 2 * w("Na") + w("C") + 3 * w("O") + 10 * water)
+                      and close(M("Al2(SO4)3..18H2O"), 2 * w("Al") + 3 * w("S") + 12 * w("O") + 18 * water)
+                      and close(M("Ca2.832Fe0.6285Mg5.395(CO3)6"), 2.832 * w("Ca") + 0.6285 * w("Fe") + 5.395 * w("Mg") + 6 * w("C") + 18 * w("O")))
+        detail = ""
+    except Exception as ex:
+        grammar_ok, detail = False, repr(ex)[:200]
+    v.prove("brackets_dot_decimals_and_nested_hydrates", grammar_ok, detail)
     v.prove("charge_written_in_the_formula", all(close(M(par) - M(ion), q * me) for par, ion, q in (("Fe", "Fe+3", 3), ("Fe(CN)6", "Fe(CN)6-4", -4), ("SO4", "SO4-2", -2), ("Na", "Na+", 1), ("O2", "O2-", -1))) and close(M("e-"), me))
     v.prove("phase_suffix_and_prefix_do_not_weigh", close(M("NaCl(s)"), M("NaCl")) and close(M("alpha-FeOOH(s)"), M("FeOOH")) and close(Species.from_formula("Na+(aq)").mass, M("Na+")))
     v.prove("every_element_alone", all(close(mass_from_composition({z: 1}), ram[z - 1]) and close(mass_from_composition({z: 3, 0: 2}), 3 * ram[z - 1] - 2 * me) for z in range(1, 119)))
+    # 'for all 118 elements': symbol -> parser -> mass and name -> atomic number -> mass against the REFERENCE rows (no index shared with the code's tables)
+    try:
+        from chempy.util.periodic import atomic_number
+        bad = [(z, sym) for z, sym, name, m in iupac.TABLE if not (abs(M(sym) - m) <= 1e-12 and Substance.from_formula(sym).composition == {z: 1}
+                                                                   and abs(mass_from_composition({atomic_number(name): 1}) - m) <= 1e-12 and abs(M(sym + "2") - 2 * m) <= 1e-9)]
+        detail = "elements whose mass through the parser / name lookup is not the reference weight: %s" % bad[:5]
+    except Exception as ex:
+        bad, detail = [ex], repr(ex)[:200]
+    v.prove("every_symbol_through_the_parser", len(iupac.TABLE) == 118 and not bad, detail)
     fr = mass_fractions({"H2": 2, "O2": 1})
     tot = 2 * M("H2") + M("O2")
     v.prove("mass_fractions_from_formula_keys", set(fr) == {"H2", "O2"} and close(fr["H2"], 2 * M("H2") / tot) and close(fr["O2"], M("O2") / tot) and close(sum(fr.values()), 1.0) and all(x > 0 for x in fr.values()))
+    # the factory given by the caller makes the substances: called with the keys (and nothing else), and ITS masses are the ones used (keys that are no
+    # formulas, masses that no formula has: 3*2 : 1*10 = 0.375 : 0.625); with Species.from_formula the phases do not weigh (hand sums)
+    try:
+        calls = []
+
+        def factory(key):
+            calls.append(key)
+            return Substance(key, data={"mass": {"A": 2.0, "B": 10.0}[key]})
+        fa = mass_fractions({"A": 3, "B": 1}, substance_factory=factory)
+        nacl, water = w("Na") + w("Cl"), 2 * w("H") + w("O")
+        fs = mass_fractions({"NaCl(s)": 1, "H2O(l)": 10}, substance_factory=Species.from_formula)
+        factory_ok = (set(calls) == {"A", "B"} and set(fa) == {"A", "B"} and close(fa["A"], 0.375) and close(fa["B"], 0.625)
+                      and set(fs) == {"NaCl(s)", "H2O(l)"} and close(fs["NaCl(s)"], nacl / (nacl + 10 * water)) and close(fs["H2O(l)"], 10 * water / (nacl + 10 * water)))
+        detail = "factory calls %r, fractions %r, %r" % (calls, fa, fs)
+    except Exception as ex:
+        factory_ok, detail = False, repr(ex)[:200]
+    v.prove("mass_fractions_uses_the_given_factory", factory_ok, detail)
+    # molar mass = mass * (gram per mole of the units given): for a unit namespace of plain numbers (no units package involved; g/mol = 3.5), for
+    # an ion (the electron term belongs to the molar mass), and - where the units package is there - in the default units, given or not
+    try:
+        from types import SimpleNamespace
+        ns = SimpleNamespace(g=7.0, mol=2.0)
+        given_ok = close(Substance.from_formula("H2O").molar_mass(ns), 3.5 * (2 * w("H") + w("O"))) and close(Substance.from_formula("Fe+3").molar_mass(ns), 3.5 * (w("Fe") - 3 * me))
+        detail = ""
+    except Exception as ex:
+        given_ok, detail = False, repr(ex)[:200]
+    v.prove("molar_mass_in_the_units_given", given_ok, detail)
     try:
         from chempy.units import default_units as u, to_unitless
-        mm = Substance.from_formula("H2O").molar_mass()
-        v.prove("molar_mass_in_grams_per_mole", close(float(to_unitless(mm, u.gram / u.mol)), M("H2O")) and close(float(to_unitless(Substance.from_formula("H2O").molar_mass(u), u.kg / u.mol)), M("H2O") / 1000))
-    except ImportError:
-        pass
+        if u is None:
+            raise ImportError("chempy.units has no default_units (the units package is not installed)")
+        in_g_per_mol = lambda q: float(to_unitless(q, u.gram / u.mol))
+        default_ok = (close(in_g_per_mol(Substance.from_formula("H2O").molar_mass()), 2 * w("H") + w("O")) and close(in_g_per_mol(Substance.from_formula("Fe+3").molar_mass()), w("Fe") - 3 * me)
+                      and close(float(to_unitless(Substance.from_formula("H2O").molar_mass(u), u.kg / u.mol)), (2 * w("H") + w("O")) / 1000))
+        detail = ""
+    except Exception as ex:     # (also a missing units package: the default-units half would otherwise be silently without obligation)
+        default_ok, detail = False, repr(ex)[:200]
+    v.prove("molar_mass_in_grams_per_mole", default_ok, detail)
 
 
 @harness("C14", "mass_fractions.any_mapping", functions=["chempy.chemistry:mass_fractions"], kind="data")
